@@ -36,7 +36,9 @@ def run(rep):
             if rep.tier != "quick":
                 runs.append(["fault", lib, ch, "waiting=3", "later=2", "order=adds_first"])
     hang_libs = ("async_std", "smol") if known_async else ()
-    seen = rt_common.impl_side(rep, PID, runs, lambda a, d: probe.oracle_fault(d, hang_libs))
+    # a self-consuming call on a dead actor (sole handle, guarded method): loud too, never a made-up refusal
+    runs += [["consume", lib, ch, "handles=1", "dead=1"] for lib in gen_impl.LIBS for ch in ((0, 2) if rep.tier == "quick" else (0, 1, 2, 3))]
+    seen = rt_common.impl_side(rep, PID, runs, lambda a, d: (probe.oracle_consume(d), []) if a[0] == "consume" else probe.oracle_fault(d, hang_libs))
     rt_common.model_vs_probe(rep, PID, 'fault', [(lib, ch, {'waiting': 2, 'later': 4}) for lib in gen_impl.LIBS for ch in (0, 1, 2)])
     if seen and known_async:
         rep.known_finding("async-channel-buffered-reply: %d in-flight value-returning calls on async_std / smol block forever after the actor died (e.g. %s); proved refuted in Coq: C20_no_hang_refuted_without_drain" % (len(seen), seen[0]))
